@@ -21,7 +21,7 @@ RULE = (
     "'echo OUT > {o:out} && { test $(cat {i:in}) = IN || exit 41; } && [mkdir -p d &&] echo Xi > <extra i> ...' through the instrumented scipipe on the default schedule (single task: nothing to interleave); "
     "oracle on the whole tree afterwards: OUT exactly at the declared path and nowhere else, the command saw the input's bytes through {i:in} from inside its working directory (exit 41 otherwise), "
     "input untouched, the sibling at <declared>.sib, every other extra at <cwd>/<same relative name>, no other file than <declared>.audit.json, no _scipipe_tmp* directory, workflow did not exit; "
-    "+ a joined in-port whose members have relative / absolute paths (each member must resolve from the task's working directory); "
+    "+ an input path stepping back over a symbolic link to a directory; + a joined in-port whose members have relative / absolute paths (each member must resolve from the task's working directory); "
     "violations are grouped by input class (form + placeholder/dotdot features of the paths, exact name for extras); "
     "distinct_nontrivial = number of DISTINCT (output, input, extras) cases run, not counting those where output and input are single plain names and there are no extras"
 )
@@ -38,6 +38,9 @@ def setup(J):
         for k, sep, ab in ((2, " ", True), (1, ",", True), (2, " ", False)):
             jobs.append(J.with_delay_fallback(J.wf("C13", "gjoin", k, 1, 2, "cmd", oracles=["nohang", "clean", "c18"], tier=tier, events_dep=False, extra=sep, abs_src=ab,
                                                    id=f"C13-joined-inputs-k{k}-sep{ord(sep)}-{'absolute' if ab else 'relative'}")))
+        # an input path that steps back over a symbolic link to a directory (lnk/../in.txt): ".." is resolved by the
+        # kernel, a lexically cleaned path names another file (real bash, one task, one schedule)
+        jobs.append({"id": "C13-input-behind-symlinked-directory", "prop": "C13", "kind": "c13symlink", "mode": "single", "budget": 60, "oracles": [], "events_dep": False, "force_all": -1, "args": {}})
         rule = RULE % dict(b, c_seg={"full": "SEG", "mid": "{a, b.c, .h, __parent__, x__parent__y, __fsroot__, e..}", "small": "{a, __parent__, __fsroot__, e..}"}[b["c_alpha"]])
         return {"level": "exploration", "stages": [lambda ctx, prev: jobs],
                 "rule": rule,
